@@ -128,6 +128,26 @@ theorem C09_collect_deterministic (extra : Str → List Pattern) (h : FromOtherD
   unfold allRules
   rw [collectRules_extra extra (fromOtherDirs_admissible extra h)]
 
+/-- **Directory enumeration order.**  Listing the entries of a directory in another order (any
+    permutation of its files and of its sub-directories — `read_dir` promises no order) permutes the
+    output and changes nothing else.  Quantified over every node, rule list and interference, so it
+    applies at every depth; `C09_subtrees_congr` carries permutations inside sub-directories upwards. -/
+theorem C09_enum_order_indep (extra : Str → List Pattern) (rules : List Pattern) (here c : Str)
+    (files files' : List Str) (dirs dirs' : List (Str × Tree)) (hf : files.Perm files') (hd : dirs.Perm dirs') :
+    (walkWith extra rules here (.node c files dirs)).Perm (walkWith extra rules here (.node c files' dirs')) :=
+  walkWith_perm_children extra rules here c files files' dirs dirs' hf hd
+
+theorem C09_subtrees_congr (extra : Str → List Pattern) (rules : List Pattern) (here c : Str) (files : List Str)
+    (dirs dirs' : List (Str × Tree)) (h : SameUpToOrder extra dirs dirs') :
+    (walkWith extra rules here (.node c files dirs)).Perm (walkWith extra rules here (.node c files dirs')) :=
+  walkWith_congr_subtrees extra rules here c files dirs dirs' h
+
+example : (walkSpec (.node "*.log\n".toList ["f.txt".toList, ".xvcignore".toList, "r.log".toList]
+      [("b".toList, .node [] ["n.txt".toList, "x.bak".toList] []), ("a".toList, .node [] ["y".toList] [])])).Perm
+    (walkSpec (.node "*.log\n".toList [".xvcignore".toList, "r.log".toList, "f.txt".toList]
+      [("a".toList, .node [] ["y".toList] []), ("b".toList, .node [] ["x.bak".toList, "n.txt".toList] [])])) := by
+  decide
+
 /-- a concrete interference: everything checked outside `/a` also sees the patterns of `a/.xvcignore` -/
 def exExtra (p : Str) : List Pattern :=
   if Under "/a".toList p then [] else [Pattern.new (.file "a".toList) "x.bak".toList, Pattern.new (.file "a".toList) "!*.txt".toList]
@@ -269,6 +289,10 @@ open Ign in
 #print axioms C09_parallel_deterministic
 open Ign in
 #print axioms C09_collect_deterministic
+open Ign in
+#print axioms C09_enum_order_indep
+open Ign in
+#print axioms C09_subtrees_congr
 open Ign in
 #print axioms C09_F8_old_glob_counterexample
 open Ign in
